@@ -57,6 +57,16 @@ def gen_inputs(ctx):
                 sorted({0, 1, 2, 3, len(tape) // 2, len(tape) - 2, len(tape) - 1})
             for c in cuts:
                 out.append(("ScriptParse", B(tape[:c]), ("prefix", band(n), "in-varint" if c < (1 if len(tape) < 254 else 3) else "body")))
+    # element CONTENT must not influence the encoding: every single-byte value, and short elements whose
+    # first byte looks like an opcode / push marker
+    for v in range(256):
+        out.append(("ScriptSer", {"cmds": [{"d": [v]}], "raw": True}, ("one-byte", v <= 16, v in (0x4c, 0x4d, 0x4e, 0x81))))
+        cm = [{"op": 0x76}, {"d": [v]}, {"op": 0x87}]
+        out.append(("ScriptSer", {"cmds": cm, "raw": False}, ("one-byte-in-script", v <= 16)))
+        out.append(("ScriptParse", B(ser_ref(cm)), ("one-byte-parse", v <= 16)))
+    for first in (0, 1, 16, 75, 76, 77, 78, 79, 0x81, 0xff):
+        for n in (2, 3, 33, 75, 76):
+            out.append(("ScriptSer", {"cmds": [{"d": [first] + elem(rng, n - 1)}], "raw": True}, ("first-byte", first, n)))
     for n in (522, 600, 65535, 65536, 70000):
         out.append(("ScriptSer", {"cmds": [{"d": elem(rng, n)}], "raw": True}, ("len", ">521", n)))
     # all opcode bytes
